@@ -139,6 +139,7 @@ class Frame:
         self.depth = depth
         self.parent = parent
         self.callsite = callsite
+        self.gargs = None
 
     def stack(self):
         out = []
@@ -347,6 +348,17 @@ def _bitvec(t, path, w, depth):
             n = max(len(av), len(bw))
             av = av + [0] * (n - len(av))
             bw = bw + [0] * (n - len(bw))
+            if op in ("Lt", "Le", "Gt", "Ge") and path.tags.get(("signed", t)):
+                wa_ = width_of(a)
+                sa_ = av[wa_ - 1] if wa_ <= len(av) else None
+                sb_ = bw[wa_ - 1] if wa_ <= len(bw) else None
+                va_, vb_ = bv_value(av), bv_value(bw)
+                if va_ is not None and vb_ is not None:
+                    x_, y_ = to_signed(va_, wa_), to_signed(vb_, wa_)
+                    r = int({"Lt": x_ < y_, "Le": x_ <= y_, "Gt": x_ > y_, "Ge": x_ >= y_}[op])
+                    return [r] + [0] * (bits - 1)
+                if not (sa_ == 0 and sb_ == 0):
+                    return [None] + [0] * (bits - 1)   # a sign bit is unknown: the unsigned order says nothing
             r = _cmp_bits(op, av, bw, a == b)
             return [r] + [0] * (bits - 1)
         if op in ("Add", "Sub", "Mul", "AddUnchecked", "SubUnchecked", "MulUnchecked"):
@@ -660,8 +672,17 @@ class Interp:
             if k == "agg":
                 return v
             return ("vfield_base", v, vidx)
+        if tag == "ci" and k == "agg" and v[1] == "array" and len(e) >= 4:
+            off = e[1]
+            idx_ = len(v[3]) - off if e[3] else off
+            if 0 <= idx_ < len(v[3]):
+                return v[3][idx_]
         if tag == "i":
-            return ("index", v, "?")
+            if len(e) > 2 and k == "agg" and v[1] == "array":
+                d = self.decide(path, e[2])
+                if d is not None and d < len(v[3]):
+                    return v[3][d]
+            return ("index", v, e[2] if len(e) > 2 else "?")
         return ("proj", v, str(e))
 
     def write_loc(self, path, loc, val):
@@ -731,6 +752,9 @@ class Interp:
             else:
                 if isinstance(e, list):
                     e = tuple(e)
+                if e and e[0] == "i" and len(e) == 2:
+                    # index by a local of this frame: carry its current value so that constant tables can be read
+                    e = ("i", e[1], self.read_loc(path, (("L", frame.fid, e[1]), ())))
                 cur = (cur[0], cur[1] + (e,))
         return cur
 
@@ -794,6 +818,13 @@ class Interp:
             return ("int", c["v"], c.get("bits", 64))
         if isinstance(ty, list) and ty[0] == "tuple" and not ty[1]:
             return UNIT
+        # a const generic parameter of the inlined function: the argument of the call it was inlined at
+        gn = frame.body.get("generics")
+        if gn and frame.gargs and c.get("d") in gn:
+            i_ = gn.index(c["d"])
+            if i_ < len(frame.gargs) and re.fullmatch(r"-?\d+", str(frame.gargs[i_]).strip()):
+                tb_ = ty_bits(ty) or (64, False)
+                return INT(int(frame.gargs[i_]), tb_[0])
         # a named constant / static of the crate: evaluate its initialiser body (straight-line aggregates)
         nm = c.get("name")
         if nm and nm in self.F.bodies and self.F.bodies[nm]["kind"] in ("Const", "Static") and frame.depth < self.max_depth:
@@ -1062,8 +1093,8 @@ class Interp:
                 else:
                     if not is_int(a):
                         self.assume_cond(path, a, None, [b[1]])
-            # range refinement: x <= 2^k-1, x < 2^k
-            if is_int(b):
+            # range refinement: x <= 2^k-1, x < 2^k (unsigned comparisons only: a signed x below the bound may be negative)
+            if is_int(b) and not path.tags.get(("signed", t)):
                 bound = None
                 if (op == "Le" and truth) or (op == "Gt" and not truth):
                     bound = b[1]
@@ -1095,8 +1126,9 @@ class Interp:
             path.store[("L", frame.fid, i + 1)] = a
         return self._run_from(frame, 0, path, depth)
 
-    def call_body(self, body, args, path, parent, depth, callsite=None):
+    def call_body(self, body, args, path, parent, depth, callsite=None, gargs=None):
         frame = Frame(body, depth, parent, callsite)
+        frame.gargs = gargs
         for i, a in enumerate(args):
             path.store[("L", frame.fid, i + 1)] = a
         return self._run_from(frame, 0, path, depth)
@@ -1113,8 +1145,8 @@ class Interp:
                 loops = self.loops_of(body)
                 lp = loops.get(bb)
                 if lp is not None:
-                    if n < self.widen_at:
-                        pass  # still unrolling precisely
+                    if n < self.widen_at or (n < 64 and path.tags.get(("concrete_loop", frame.fid))):
+                        pass  # still unrolling precisely (always, for a loop driven by an iterator over known elements)
                     elif n == self.widen_at:
                         # widen: forget everything the loop body assigns, run one generic iteration
                         tops = {}
@@ -1294,7 +1326,8 @@ class Interp:
 
     def _inline(self, path, frame, t, cb, args, depth, spread=False):
         def gen():
-            for o in self.call_body(cb, args, path, frame, depth + 1, callsite=F.site_str(frame.body, t["sp"])):
+            for o in self.call_body(cb, args, path, frame, depth + 1, callsite=F.site_str(frame.body, t["sp"]),
+                                    gargs=t["f"].get("gargs")):
                 if o.kind == "return":
                     yield from self.cont(frame, t, o.path, o.value, depth)
                 else:
@@ -1429,6 +1462,30 @@ class Interp:
                             path.events.append(("assert", "Overflow", opn, {"a": a_, "b": b_}, F.site_str(frame.body, t["sp"]),
                                                 frame.body["path"], ov, len(path.conds), ""))
                     return self._multi(path, frame, t, [(self.binop(path, opn, a_, b_, tb[0], tb[1]), path)], depth)
+        mo2 = _OPASSIGN_TRAIT.match(name)
+        if mo2 and len(args) == 2 and args[0][0] == "ref":
+            tb = _prim_bits(mo2.group(1))
+            opn = {"add_assign": "Add", "sub_assign": "Sub", "mul_assign": "Mul", "bitand_assign": "BitAnd", "bitor_assign": "BitOr",
+                   "bitxor_assign": "BitXor", "shl_assign": "Shl", "shr_assign": "Shr"}.get(mo2.group(2))
+            if tb and opn:
+                cur = self.read_loc(path, args[0][1])
+                b_ = self._deref_all(path, args[1])
+                if opn in ("Add", "Sub", "Mul"):
+                    ov = self.binop(path, opn + "Ovf", cur, b_, 8, tb[1])
+                    if self.decide(path, ov) is None:
+                        path.events.append(("assert", "Overflow", opn, {"a": cur, "b": b_}, F.site_str(frame.body, t["sp"]),
+                                            frame.body["path"], ov, len(path.conds), ""))
+                self.write_loc(path, args[0][1], self.binop(path, opn, cur, b_, tb[0], tb[1]))
+                return self._multi(path, frame, t, [(UNIT, path)], depth)
+        # --- `next` on an iterator over known elements: the iterator value in its location is advanced
+        if shortn == "next" and len(args) == 1 and args[0][0] == "ref" and "Iterator" in (t["f"].get("def") or name):
+            itv = self.read_loc(path, args[0][1])
+            if itv[0] == "citer":
+                path.tags[("concrete_loop", frame.fid)] = True
+                if itv[1]:
+                    self.write_loc(path, args[0][1], ("citer", itv[1][1:]))
+                    return self._multi(path, frame, t, [(SOME(itv[1][0]), path)], depth)
+                return self._multi(path, frame, t, [(NONE, path)], depth)
         # --- iterator chains over arrays whose elements are known: ('citer', elements)
         if shortn in ("iter", "into_iter") and len(args) == 1:
             v = self._deref_all(path, args[0])
@@ -1533,9 +1590,18 @@ class Interp:
         if shortn in ("try_into", "try_from") and len(args) == 1:
             v = self._deref_all(path, args[0])
             g_ = " ".join(t["f"].get("gargs", []))
-            m_ = re.search(r"\[u8; (\d+)\]", g_)
-            if v[0] == "agg" and v[1] == "array" and m_:
-                if len(v[3]) == int(m_.group(1)):
+            m_ = re.search(r"\[u8; (\w+)\]", g_)
+            n_arr = None
+            if m_:
+                if m_.group(1).isdigit():
+                    n_arr = int(m_.group(1))
+                else:
+                    gn_ = frame.body.get("generics") or []
+                    if frame.gargs and m_.group(1) in gn_ and gn_.index(m_.group(1)) < len(frame.gargs) and \
+                            str(frame.gargs[gn_.index(m_.group(1))]).strip().isdigit():
+                        n_arr = int(str(frame.gargs[gn_.index(m_.group(1))]).strip())
+            if v[0] == "agg" and v[1] == "array" and n_arr is not None:
+                if len(v[3]) == n_arr:
                     return self._multi(path, frame, t, [(OK(v), path)], depth)
                 return self._multi(path, frame, t, [(ERR(("ret", "TryFromSliceError", (), 0)), path)], depth)
         if shortn in ("deref", "as_slice", "as_ref", "to_vec", "borrow", "into_boxed_slice", "to_owned") and len(args) == 1:
@@ -2140,6 +2206,7 @@ class Interp:
 import re
 
 _OP_TRAIT = re.compile(r"^<&?(?:'\w+ )?([iu](?:8|16|32|64|128|size)) as std::ops::(Add|Sub|Mul|BitAnd|BitOr|BitXor|Shl|Shr|Div|Rem)<[^>]*>>::(add|sub|mul|bitand|bitor|bitxor|shl|shr|div|rem)$")
+_OPASSIGN_TRAIT = re.compile(r"^<([iu](?:8|16|32|64|128|size)) as std::ops::\w+Assign<[^>]*>>::(\w+_assign)$")
 _INT_METHOD = re.compile(r"^core::num::<impl ([iu](?:8|16|32|64|128|size))>::(\w+)$")
 
 
